@@ -37,7 +37,10 @@ def gen_cases(ctx):
         cases.append({"kind": "step", "shape": shape, "bt": bt, "box": box, "seed": ctx.rng.randint(0, 10**6), "steps": 2, "poles": poles, "eps": ctx.rng.choice([1.0, 2.25])})
     # stability: fixed corpus (incl. the known finding inputs) + random passive media
     stab = [{"poles": [{"kind": "lorentz", "w": 0.5, "g": 0.0, "deps": 3.0}], "cf": 0.99}, {"poles": [{"kind": "drude", "w": 0.8, "g": 0.01}], "cf": 0.99},
-            {"poles": [{"kind": "lorentz", "w": 0.5, "g": 0.0, "deps": 3.0}], "cf": 0.5}, {"poles": [{"kind": "lorentz", "w": 0.1, "g": 0.01, "deps": 1.0}], "cf": 0.99}]
+            {"poles": [{"kind": "lorentz", "w": 0.5, "g": 0.0, "deps": 3.0}], "cf": 0.5}, {"poles": [{"kind": "lorentz", "w": 0.1, "g": 0.01, "deps": 1.0}], "cf": 0.99},
+            # resonance at / above the recurrence bound omega_0 dt >= 2 (must be rejected, or stay bounded), lightly and heavily damped
+            {"poles": [{"kind": "lorentz", "w": 2.3, "g": 3.0, "deps": 1.0}], "cf": 0.5}, {"poles": [{"kind": "lorentz", "w": 2.05, "g": 1.2, "deps": 0.5}], "cf": 0.5},
+            {"poles": [{"kind": "lorentz", "w": 2.1, "g": 0.05, "deps": 1.0}], "cf": 0.5}]
     for _ in range(ctx.pick(2, 12)):
         k = ctx.rng.choice(["lorentz", "drude"])
         p = {"kind": k, "w": round(ctx.rng.uniform(0.02, 0.35), 3), "g": round(ctx.rng.choice([0.0, 0.01, 0.1]), 3)}
